@@ -4076,3 +4076,312 @@ func (p *Prog) nothingDeletedMeansNothingToDelete() []Ob {
 	}
 	return obs
 }
+
+// ---------------------------------------------------------------------------
+// R8 K2b OWN-BACKING-ARRAY (C09): a list that is grown with append (the positions of one key hash)
+// starts as a slice with a backing array of its own. A two-index sub-slice of an array shared with
+// its neighbours has spare capacity that *is* the neighbours: the next append overwrites them.
+func (p *Prog) ownBackingArray() []Ob {
+	var obs []Ob
+	// fields that are grown with append somewhere in the module
+	grown := map[*types.Var]bool{}
+	for _, fn := range p.Funcs {
+		for _, b := range fn.Blocks {
+			for _, ins := range b.Instrs {
+				c, ok := ins.(*ssa.Call)
+				if !ok || !isBuiltinCall(c.Common(), "append") || len(c.Call.Args) == 0 {
+					continue
+				}
+				if f, _ := loadedField(canon(c.Call.Args[0])); f != nil {
+					grown[f] = true
+				}
+			}
+		}
+	}
+	n := 0
+	for _, fn := range p.Funcs {
+		if !srcFunc(fn) || funcPkgPath(fn) != pkgIndex {
+			continue
+		}
+		k := 0
+		for _, b := range fn.Blocks {
+			for _, ins := range b.Instrs {
+				st, ok := ins.(*ssa.Store)
+				if !ok {
+					continue
+				}
+				fa, ok := st.Addr.(*ssa.FieldAddr)
+				if !ok {
+					continue
+				}
+				f := fieldVarOfAddr(fa)
+				if f == nil || !grown[f] {
+					continue
+				}
+				if _, isSlice := f.Type().Underlying().(*types.Slice); !isSlice {
+					continue
+				}
+				// the append result stored back is the growth itself
+				if c, ok := st.Val.(*ssa.Call); ok && isBuiltinCall(c.Common(), "append") {
+					continue
+				}
+				n++
+				k++
+				ob := Ob{Rule: "R8", Inst: fmt.Sprintf("K2b:own-backing-array:%s#%d", funcLabel(fn), k), Props: []string{"C09"}, Pos: p.at(st), Func: funcLabel(fn), Nontrivial: true}
+				shared := ""
+				if sl, ok := st.Val.(*ssa.Slice); ok && sl.Max == nil {
+					if _, fresh := sl.X.(*ssa.Alloc); !fresh || sl.Low != nil || sl.High != nil {
+						shared = "a two-index sub-slice (" + sl.String() + ")"
+					}
+				}
+				if shared != "" {
+					ob.Status, ob.Msg = Violated, "a list that is later grown with append starts as "+shared+" of an array shared with other lists: appending to it overwrites its neighbours' entries (no capacity limit)"
+				} else {
+					ob.Status, ob.Msg = Discharged, "the list starts with a backing array of its own"
+				}
+				obs = append(obs, ob)
+			}
+		}
+	}
+	if n == 0 {
+		obs = append(obs, Ob{Rule: "R8", Inst: "K2b:own-backing-array", Props: []string{"C09"}, Pos: "-", Status: Undecided, Msg: "no initialisation of an appended-to list found in the index package"})
+	}
+	return obs
+}
+
+// R36e CURSOR-SIBLINGS (C09, C03): Consume and ConsumeByKey take the same kind of cursor; they pick
+// their start segment with the same function.
+func (p *Prog) cursorSiblings() []Ob {
+	r := p.R
+	pick := func(m *ssa.Function) *ssa.Function {
+		if m == nil {
+			return nil
+		}
+		for _, b := range m.Blocks {
+			for _, ins := range b.Instrs {
+				c, ok := ins.(*ssa.Call)
+				if !ok || len(c.Call.Args) == 0 {
+					continue
+				}
+				if f, _ := loadedField(canon(c.Call.Args[0])); f == r.ImplReaders {
+					g := c.Common().StaticCallee()
+					if g != nil {
+						if o := g.Origin(); o != nil {
+							g = o
+						}
+						return g
+					}
+				}
+			}
+		}
+		return nil
+	}
+	a, b := pick(r.ImplMethods["Consume"]), pick(r.ImplMethods["ConsumeByKey"])
+	ob := Ob{Rule: "R36", Inst: "cursor-siblings", Props: []string{"C09", "C03"}, Pos: "-", Nontrivial: true}
+	if m := r.ImplMethods["ConsumeByKey"]; m != nil {
+		ob.Pos, ob.Func = p.posStr(m.Pos()), funcLabel(m)
+	}
+	switch {
+	case a == nil || b == nil:
+		ob.Status, ob.Msg = Undecided, "Consume or ConsumeByKey does not pick its start segment from the reader list with a function call"
+	case a != b:
+		ob.Status, ob.Msg = Violated, fmt.Sprintf("Consume picks its start segment with %s, ConsumeByKey with %s: a cursor both accept (for instance one that fell behind the oldest retained offset) is answered by one and refused by the other", funcLabel(a), funcLabel(b))
+	default:
+		ob.Status, ob.Msg = Discharged, "Consume and ConsumeByKey pick their start segment with "+funcLabel(a)
+	}
+	return []Ob{ob}
+}
+
+// R19g SIZE-IN-THE-CONFIGURED-VERSION (C15, C13): Log.Size prices a message in the version the log
+// writes new segments in (an option), not in a version named by a constant.
+func (p *Prog) sizeInConfiguredVersion() []Ob {
+	m := p.R.ImplMethods["Size"]
+	ob := Ob{Rule: "R19", Inst: "g:size-in-configured-version", Props: []string{"C15", "C13"}, Pos: "-", Func: funcLabel(m), Nontrivial: true}
+	if m == nil || m.Blocks == nil {
+		ob.Status, ob.Msg = Undecided, "Log.Size not found"
+		return []Ob{ob}
+	}
+	ob.Pos = p.posStr(m.Pos())
+	n := 0
+	var bad []string
+	for _, b := range m.Blocks {
+		for _, ins := range b.Instrs {
+			c, ok := ins.(*ssa.Call)
+			if !ok || calleeName(c.Common()) != pkgMessage+".Size" || len(c.Call.Args) < 2 {
+				continue
+			}
+			n++
+			name, _ := p.optionField(c.Call.Args[1])
+			if name == "" {
+				bad = append(bad, fmt.Sprintf("%s: the version is %s, not an option of the log", p.at(c), canon(c.Call.Args[1]).String()))
+			}
+		}
+	}
+	switch {
+	case n == 0:
+		ob.Status, ob.Msg = Undecided, "Log.Size does not call message.Size"
+	case len(bad) > 0:
+		ob.Status, ob.Msg, ob.Path = Violated, "Log.Size prices messages in a fixed version: on a log that writes another version the size finder's estimate of what each removed message frees is wrong", bad
+	default:
+		ob.Status, ob.Msg = Discharged, "the version Log.Size prices in is read from the log's options"
+	}
+	return []Ob{ob}
+}
+
+// ---------------------------------------------------------------------------
+// R35b / R20g / R36f (C10, C09): what a query over the segments may base a decision on.
+//
+//	R35b  no verdict before the segments are asked: a return that the loop over the segments does not
+//	      dominate is the rejection "no such index" (or another failure of a guard), never an answer
+//	      computed from state kept elsewhere;
+//	R20g  a method of the log looks at a segment reader only through its methods (its fields are
+//	      lazily loaded caches, meaningful only inside the reader under its locks) - except the
+//	      immutable segment identity;
+//	R36f  positions handed out by an index object are opaque: they are not compared with non-negative
+//	      constants (the position of "the first record" differs per format).
+func (p *Prog) queryDecisionBasis() []Ob {
+	var obs []Ob
+	r := p.R
+	ea := p.ErrAtomsCached()
+	// R35b
+	for _, q := range []string{"GetByKey", "GetByTime"} {
+		m := r.ImplMethods[q]
+		if m == nil || m.Blocks == nil {
+			continue
+		}
+		var header *ssa.BasicBlock
+		for _, b := range m.Blocks {
+			for _, ins := range b.Instrs {
+				if c, ok := ins.(*ssa.Call); ok {
+					if g := c.Common().StaticCallee(); g != nil && recvNamed(g) == r.SegReader {
+						if h, loop := innermostLoop(b); loop != nil && header == nil {
+							header = h
+						}
+					}
+				}
+			}
+		}
+		ob := Ob{Rule: "R35", Inst: "b:no-verdict-before-the-scan:Log." + q, Props: methodPropsAll[q], Pos: p.posStr(m.Pos()), Func: funcLabel(m), Nontrivial: true}
+		if header == nil {
+			ob.Status, ob.Msg = Undecided, "no loop over the segments found"
+			obs = append(obs, ob)
+			continue
+		}
+		var bad []string
+		for _, rt := range returnsOf(m) {
+			if header.Dominates(rt.Block()) {
+				continue
+			}
+			okR := false
+			if ea.isFailureReturn(m, rt) {
+				okR = true
+				for a := range ea.atomsAt(returnOperand(rt, errResultIndex(m)), rt.Block()) {
+					if a == "nil" {
+						continue
+					}
+					if !ea.matchesIs(a, "G:"+pkgRoot+".ErrNoIndex") {
+						okR = false
+					}
+				}
+			}
+			if !okR {
+				bad = append(bad, p.at(rt)+": an answer other than 'no such index' is returned without any segment having been asked")
+			}
+		}
+		if len(bad) > 0 {
+			ob.Status, ob.Msg, ob.Path = Violated, "the query answers from state kept outside the segments (which a reopen does not restore, or which lags behind them)", bad
+		} else {
+			ob.Status, ob.Msg = Discharged, "apart from the 'no such index' rejection every return lies behind the loop over the segments"
+		}
+		obs = append(obs, ob)
+	}
+	// R20g
+	{
+		var bad []string
+		n := 0
+		for _, q := range sortedKeys(r.ImplMethods) {
+			m := r.ImplMethods[q]
+			if m == nil || m.Blocks == nil {
+				continue
+			}
+			for _, b := range m.Blocks {
+				for _, ins := range b.Instrs {
+					fa, ok := ins.(*ssa.FieldAddr)
+					if !ok || namedOf(derefPtr(fa.X.Type())) != r.SegReader {
+						continue
+					}
+					n++
+					if f := fieldVarOfAddr(fa); f != r.SRSegment {
+						bad = append(bad, fmt.Sprintf("%s: Log.%s reads the field %s of a segment reader directly", p.at(fa), q, f.Name()))
+					}
+				}
+			}
+		}
+		ob := Ob{Rule: "R20", Inst: "g:readers-through-methods", Props: []string{"C10", "C09", "C03", "C08"}, Pos: "-", Nontrivial: true}
+		if len(bad) > 0 {
+			ob.Pos = strings.SplitN(bad[0], ": ", 2)[0]
+			ob.Status, ob.Msg, ob.Path = Violated, "a method of the log bases a decision on a field of a segment reader: such fields are caches that are unset until the segment was loaded by this handle, so the answer depends on what was asked before", uniqSorted(bad)
+		} else {
+			ob.Status, ob.Msg = Discharged, fmt.Sprintf("the methods of the log touch segment readers only through their methods (%d uses of the immutable segment identity aside)", n)
+		}
+		obs = append(obs, ob)
+	}
+	// R36f
+	{
+		var bad []string
+		n := 0
+		isPosition := func(v ssa.Value) bool {
+			ex, ok := canon(v).(*ssa.Extract)
+			if !ok {
+				return false
+			}
+			c, ok := ex.Tuple.(*ssa.Call)
+			if !ok || !c.Common().IsInvoke() {
+				return false
+			}
+			switch c.Common().Method.Name() {
+			case "Time", "Get", "Consume":
+				f, _ := loadedField(canon(c.Common().Value))
+				_ = f
+				return ex.Index == 0 || (c.Common().Method.Name() == "Consume" && ex.Index <= 1)
+			}
+			return false
+		}
+		for _, fn := range p.Funcs {
+			if !srcFunc(fn) || (recvNamed(fn) != r.SegReader && recvNamed(fn) != r.Impl) {
+				continue
+			}
+			for _, b := range fn.Blocks {
+				for _, ins := range b.Instrs {
+					bo, ok := ins.(*ssa.BinOp)
+					if !ok {
+						continue
+					}
+					switch bo.Op {
+					case token.EQL, token.NEQ, token.LSS, token.GTR, token.LEQ, token.GEQ:
+					default:
+						continue
+					}
+					for _, pair := range [][2]ssa.Value{{bo.X, bo.Y}, {bo.Y, bo.X}} {
+						if !isPosition(pair[0]) {
+							continue
+						}
+						n++
+						if k, isK := constInt(pair[1]); isK && k >= 0 {
+							bad = append(bad, fmt.Sprintf("%s: a position is compared with the constant %d in %s", p.at(bo), k, funcLabel(fn)))
+						}
+					}
+				}
+			}
+		}
+		ob := Ob{Rule: "R36", Inst: "f:positions-are-opaque", Props: []string{"C10", "C03"}, Pos: "-", Nontrivial: true}
+		if len(bad) > 0 {
+			ob.Pos = strings.SplitN(bad[0], ": ", 2)[0]
+			ob.Status, ob.Msg, ob.Path = Violated, "a byte position handed out by an index is given a meaning of its own ('the first record starts at N'): the formats differ in where the first record starts", uniqSorted(bad)
+		} else {
+			ob.Status, ob.Msg = Discharged, fmt.Sprintf("%d comparison(s) of positions, none with a non-negative constant", n)
+		}
+		obs = append(obs, ob)
+	}
+	return obs
+}
